@@ -427,6 +427,13 @@ def known_findings():
 
 
 def write_evidence(pid, tier, seed, level, coverage, wall, violations, assumptions=None):
+    if os.environ.get("VERIF_REPO"):
+        # an experiment against another source tree (bin/try_seed.sh): the evidence of /repo is left alone
+        d = os.path.join(SCRATCH, "evidence-experiment")
+        os.makedirs(d, exist_ok=True)
+        with open(os.path.join(d, pid + ".json"), "w") as fh:
+            json.dump({"property_id": pid, "tier": tier, "seed": int(seed), "violations": violations, "repo": os.environ["VERIF_REPO"]}, fh)
+        return
     os.makedirs(os.path.join(VERIF, "evidence"), exist_ok=True)
     ev = {"property_id": pid, "tier": tier, "seed": int(seed), "level": level, "coverage": coverage,
           "assumptions": assumptions or [], "wall_s": round(wall, 1), "violations": violations}
